@@ -31,6 +31,14 @@ def special_programs() -> dict:
         "utf8": 'name("Zoë – ü中"). p(X) :- name(X). % café\nq("äöü") :- p(_).\n#show q/1.\n',
         # clingo's parser itself emits a message (already included file) while reading this one
         "warn": "#include <incmode>.\n#include <incmode>.\nb(X) :- c(X).\n{ a } :- b(X).\n#show a/0.\n",
+        # every character clingo accepts inside a string constant or a comment but that some text API treats as a
+        # line boundary or as white space: VT, FF, FS/GS/RS, NEL, LS, PS, a lone CR, NBSP, ZWNBSP, DEL, SOH
+        "seps": 's("a\x0bb\x0cc\x1cd\x1de\x1ef\x85g\u2028h\u2029i\rj\xa0k\ufefflm\x7fn\x01o"). % page\x0cbreak: old(1). \u2028 new(2).\n'
+        't(X) :- s(X). % \x85 tail(3).\n#show t/1.\n',
+        "crlf": "a :- b.\r\nc(X) :- d(X), not e(X).\r\n#show c/1.\r\n",
+        "tabs": "a\t:-\tb.\n\tc(X) :- d(X),\n\t\tnot e(X).\n#show c/1.\n",
+        "lastcomment": "c(X) :- d(X).\n#show c/1.\n% trailing comment without newline",
+        "longline": 's("' + "x" * 70000 + '"). t(X) :- s(X).\n#show t/1.\n',
         "big": big,
     }
 
@@ -207,7 +215,7 @@ def gen_fault(rng, approx_out: int) -> dict:
 def make_run(rng, progs: dict, pid: str, faulted: bool, exec_: bool) -> dict:
     """one child run"""
     text = progs[pid]
-    spec, acls = gen_spec(rng, text, cheap_only=(pid == "big"))
+    spec, acls = gen_spec(rng, text, cheap_only=(pid in ("big", "longline")))
     data = text.encode("utf-8")
     sched, scls = gen_schedule(rng, data)
     run = {"program": pid, "spec": spec, "argv": climodel.render(spec, rng), "acls": acls, "scls": scls}
@@ -263,7 +271,7 @@ def run(args) -> int:
                 }
             )
     rng = stream(seed, "c19", "sampled")
-    weights = [6 if p == "probe" else (1 if p == "big" else 3) for p in pids]
+    weights = [6 if p == "probe" else (1 if p in ("big", "longline") else 3) for p in pids]
     for _ in range(cfg["sampled"]):
         runs.append(make_run(rng, progs, rng.choices(pids, weights)[0], False, False))
     rng = stream(seed, "c19", "faulted")
